@@ -1,5 +1,5 @@
 import logging
-from functools import reduce
+import re
 from typing import List, Mapping, Optional, Tuple, Union
 
 from antlr4 import CommonTokenStream, InputStream  # type: ignore
@@ -16,14 +16,13 @@ from .grammar.TagTemplateParserVisitor import TagTemplateParserVisitor
 ArgValue = Union[str, int, bool]
 
 
-escaped_characters = ("'", "\\", "{", "}", "|")
-replacements = list(("\\" + ec, ec) for ec in escaped_characters)
+text_escaped_characters = "{}|"
 
 
-def unescape(text: str) -> str:
-    return reduce(
-        lambda acc, replacement: acc.replace(*replacement), replacements, text
-    )
+def unescape(text: str, escaped_characters: str = text_escaped_characters) -> str:
+    """Removes the backslash in front of every escaped character (single left-to-right pass)"""
+    escape_sequence = re.compile("\\\\([" + re.escape(escaped_characters) + "])")
+    return escape_sequence.sub(lambda match: match.group(1), text)
 
 
 IGNORED_TERMINAL = object()
@@ -165,8 +164,9 @@ class _TreeVisitor(TagTemplateParserVisitor):
         elif ctx.STRING_VALUE():
             str_val = ctx.STRING_VALUE().getText()
             assert len(str_val) >= 2
+            quote_mark = str_val[0]
             str_val = str_val[1:-1]
-            return unescape(str_val)
+            return unescape(str_val, quote_mark + "\\")
         raise NotImplementedError("Unknown argument value token: " + ctx.getText())
 
     def visitArgument(
